@@ -283,4 +283,280 @@ theorem step_lock {cfg : Cfg} {m0 : Mem} (wf : WF cfg m0) {g : Sh} {ls : Tid →
       · intro h; exact absurd (Option.some.inj h).symm hu
       · intro h; rw [hfree] at h; cases h
 
+theorem step_unlock {cfg : Cfg} {m0 : Mem} (wf : WF cfg m0) {g : Sh} {ls : Tid → Loc} (hI : GInv cfg m0 g ls)
+    (t : Tid) (hst : (ls t).st = .run) {pc' : Nat}
+    (ha : act cfg.imm (cfg.prog t) g.mem (ls t).pc (ls t).regs = .unlock pc') (hown : g.mutex = some t) :
+    GInv cfg m0 { g with mutex := none, trace := Ev.rel t :: g.trace }
+      (upd ls t { ls t with pc := pc', ph := .post }) := by
+  have hT := hI.thr t
+  have hg : cfg.isGrow t = true := isGrow_of_not_readOnly_unlock wf ha
+  have ga := good_act wf.shared (hT.good hg (Or.inr hst)) g.mem
+  rw [ha] at ga
+  obtain ⟨hph, hgood, _⟩ := ga
+  have hnotin : t ∉ lin cfg g.trace := by
+    intro hm
+    rcases (mem_lin cfg t g.trace).mp hm with h1 | ⟨_, v, h1⟩
+    · have := hT.rel_ev h1; rw [hph] at this; cases this
+    · have := hT.res_ev v h1; rw [hst] at this; cases this
+  have hlin : lin cfg (Ev.rel t :: g.trace) = t :: lin cfg g.trace := by
+    show linAdd t (lin cfg g.trace) = _
+    exact linAdd_of_not_mem hnotin
+  obtain ⟨ms, hms, hsz, hfin⟩ := hT.seq_held hg hph
+  have hle : ms.pages ≤ cfg.imm.maxPages := by rw [hms]; exact replay_le cfg wf.init_le _
+  obtain ⟨m', hF, hpages, hsize⟩ := wf.seq t hg ms hle
+  have hF2 : Final cfg.imm (cfg.prog t) g.mem pc' (ls t).regs (m', (specGrow cfg.imm ms.pages (cfg.arg t)).1) :=
+    (Final_unlock ha _).mp ((hfin _).mp hF)
+  have hm' : m' = g.mem := by
+    obtain ⟨n, hn⟩ := hF2
+    exact post_runSeq_mem wf.shared n _ _ _ _ hgood hn
+  refine ⟨hI.data, ?_, ?_, ?_⟩
+  · intro _
+    show g.mem.pages = replay cfg m0.pages (lin cfg (Ev.rel t :: g.trace)) ∧ SizeInv m0 g.mem
+    rw [hlin]
+    constructor
+    · show g.mem.pages = (specGrow cfg.imm (replay cfg m0.pages (lin cfg g.trace)) (cfg.arg t)).2
+      rw [← hms, ← hpages, hm']
+    · rcases hsize with h | h
+      · rw [← hm', h]; exact hsz
+      · rw [← hm']; exact Or.inr h
+  · intro a b va hga hold hb
+    show Older (lin cfg (Ev.rel t :: g.trace)) a b
+    rw [show ({ g with mutex := none, trace := Ev.rel t :: g.trace } : Sh).trace = Ev.rel t :: g.trace from rfl,
+      hlin] at hb
+    rw [hlin]
+    have hold' : Older g.trace (Ev.res a va) (Ev.inv b) := by
+      rcases Older_cons.mp hold with ⟨he, _⟩ | h2
+      · cases he
+      · exact h2
+    by_cases hbl : b ∈ lin cfg g.trace
+    · exact Older_cons.mpr (Or.inr (hI.rt a b va hga hold' hbl))
+    · rcases List.mem_cons.mp hb with rfl | h
+      · refine Older_cons.mpr (Or.inl ⟨rfl, ?_⟩)
+        exact (mem_lin cfg a g.trace).mpr (Or.inr ⟨hga, va, Older_mem_left hold'⟩)
+      · exact absurd h hbl
+  · intro u
+    by_cases hu : u = t
+    · subst hu
+      rw [upd_same]
+      refine ⟨?_, ?_, ?_, ?_, ?_, ?_, ?_, ?_, ?_, ?_, ?_⟩
+      · intro h; rw [show ({ ls u with pc := pc', ph := Phase.post } : Loc).st = (ls u).st from rfl, hst] at h; cases h
+      · intro h; exact List.mem_cons_of_mem _ (hT.inv_ev h)
+      · intro v hv
+        rcases List.mem_cons.mp hv with h | h
+        · cases h
+        · exact hT.res_ev v h
+      · intro _; rfl
+      · exact ⟨fun h => (by cases h), fun h => (by cases h)⟩
+      · intro h; rw [hg] at h; cases h
+      · intro _ _; exact hgood
+      · intro _ hp; cases hp
+      · intro _ hp; cases hp
+      · intro _ _
+        refine ⟨[], lin cfg g.trace, hlin, fun _ => ⟨ms, g.mem, hms, fun r => ?_⟩⟩
+        show _ ↔ Final cfg.imm (cfg.prog u) g.mem pc' (ls u).regs r
+        rw [hfin r]
+        exact Final_unlock ha r
+      · intro v hv; rw [show ({ ls u with pc := pc', ph := Phase.post } : Loc).st = (ls u).st from rfl, hst] at hv; cases hv
+    · rw [upd_other _ _ hu]
+      have hnh : (ls u).ph ≠ .held := by
+        intro hp
+        have := (hI.thr u).held.mp hp
+        rw [hown] at this
+        exact hu (Option.some.inj this).symm
+      refine TInv_frame (hI.thr u) (Or.inr ⟨_, rfl, fun h => hu h.symm⟩) ?_ (fun _ => rfl)
+        (Or.inr ⟨t, fun h => hu h.symm, hlin⟩) (fun hp => absurd hp hnh)
+      constructor
+      · intro h; cases h
+      · intro h; rw [hown] at h; exact absurd (Option.some.inj h).symm hu
+
+theorem step_ret {cfg : Cfg} {m0 : Mem} (wf : WF cfg m0) {g : Sh} {ls : Tid → Loc} (hI : GInv cfg m0 g ls)
+    (t : Tid) (hst : (ls t).st = .run) {v : Nat}
+    (ha : act cfg.imm (cfg.prog t) g.mem (ls t).pc (ls t).regs = .ret v) :
+    GInv cfg m0 { g with trace := Ev.res t v :: g.trace } (upd ls t { ls t with st := .done v }) := by
+  have hT := hI.thr t
+  have hnores : ∀ w, Ev.res t w ∉ g.trace := by
+    intro w hw; have := hT.res_ev w hw; rw [hst] at this; cases this
+  -- what the response does to the linearization order
+  have hsum : (lin cfg (Ev.res t v :: g.trace) = lin cfg g.trace ∨
+        (lin cfg (Ev.res t v :: g.trace) = t :: lin cfg g.trace)) ∧
+      replay cfg m0.pages (lin cfg (Ev.res t v :: g.trace)) = replay cfg m0.pages (lin cfg g.trace) ∧
+      (cfg.isGrow t = true → (ls t).ph ≠ .held ∧
+        ∀ newer older, lin cfg (Ev.res t v :: g.trace) = newer ++ t :: older → v = retOf cfg m0.pages older t) := by
+    cases hg : cfg.isGrow t with
+    | false =>
+      have : lin cfg (Ev.res t v :: g.trace) = lin cfg g.trace := by simp [lin, hg]
+      exact ⟨Or.inl this, by rw [this], fun h => by cases h⟩
+    | true =>
+      have ga := good_act wf.shared (hT.good hg (Or.inr hst)) g.mem
+      rw [ha] at ga
+      obtain ⟨hnh, hact⟩ := ga
+      have hnd := lin_nodup cfg (Ev.res t v :: g.trace)
+      cases hph : (ls t).ph with
+      | held => exact absurd hph hnh
+      | pre =>
+        have hnotin : t ∉ lin cfg g.trace := by
+          intro hm
+          rcases (mem_lin cfg t g.trace).mp hm with h1 | ⟨_, w, h1⟩
+          · have := hT.rel_ev h1; rw [hph] at this; cases this
+          · exact hnores w h1
+        have hlin : lin cfg (Ev.res t v :: g.trace) = t :: lin cfg g.trace := by
+          simp only [lin, hg, ↓reduceIte]; exact linAdd_of_not_mem hnotin
+        -- run the specification at the current linearized size
+        let m : Mem := ⟨g.mem.data, g.mem.size, replay cfg m0.pages (lin cfg g.trace)⟩
+        have hle : m.pages ≤ cfg.imm.maxPages := replay_le cfg wf.init_le _
+        obtain ⟨m', hF, hpages, _⟩ := wf.seq t hg m hle
+        have hF' : Final cfg.imm (cfg.prog t) m 0 (initRegs (cfg.arg t)) (m, v) :=
+          (hT.seq_pre hg hph (Or.inr hst) m (m, v)).mpr ((Final_ret (hact m) _).mpr rfl)
+        have heq := Final_det hF hF'
+        have h1 : m' = m := congrArg Prod.fst heq
+        have h2 : (specGrow cfg.imm m.pages (cfg.arg t)).1 = v := congrArg Prod.snd heq
+        refine ⟨Or.inr hlin, ?_, fun _ => ⟨by simp, ?_⟩⟩
+        · rw [hlin]
+          show (specGrow cfg.imm m.pages (cfg.arg t)).2 = m.pages
+          rw [← hpages, h1]
+        · intro newer older hd
+          rw [hlin] at hd hnd
+          have := nodup_decomp_unique (n1 := []) (o1 := lin cfg g.trace) hnd hd
+          rw [← this.2]
+          exact h2.symm
+      | post =>
+        obtain ⟨newer0, older0, hd0, hrun⟩ := hT.seq_post hg hph
+        have hin : t ∈ lin cfg g.trace := by rw [hd0]; simp
+        have hlin : lin cfg (Ev.res t v :: g.trace) = lin cfg g.trace := by
+          simp only [lin, hg, ↓reduceIte]; exact linAdd_of_mem hin
+        obtain ⟨ms, m1, hms, hfin⟩ := hrun hst
+        have hle : ms.pages ≤ cfg.imm.maxPages := by rw [hms]; exact replay_le cfg wf.init_le _
+        obtain ⟨m', hF, _, _⟩ := wf.seq t hg ms hle
+        have hF' : Final cfg.imm (cfg.prog t) ms 0 (initRegs (cfg.arg t)) (m1, v) :=
+          (hfin _).mpr ((Final_ret (hact m1) _).mpr rfl)
+        have h2 : (specGrow cfg.imm ms.pages (cfg.arg t)).1 = v := congrArg Prod.snd (Final_det hF hF')
+        refine ⟨Or.inl hlin, by rw [hlin], fun _ => ⟨by simp, ?_⟩⟩
+        intro newer older hd
+        rw [hlin] at hd hnd
+        rw [hd0] at hnd
+        have := nodup_decomp_unique hnd (hd0.symm.trans hd)
+        rw [← this.2]
+        show v = (specGrow cfg.imm (replay cfg m0.pages older0) (cfg.arg t)).1
+        rw [← hms]; exact h2.symm
+  obtain ⟨hlin, hcur, hval⟩ := hsum
+  refine ⟨hI.data, ?_, ?_, ?_⟩
+  · intro hm
+    show g.mem.pages = replay cfg m0.pages (lin cfg (Ev.res t v :: g.trace)) ∧ SizeInv m0 g.mem
+    rw [hcur]; exact hI.free hm
+  · intro a b va hga hold hb
+    show Older (lin cfg (Ev.res t v :: g.trace)) a b
+    have hb' : b ∈ lin cfg (Ev.res t v :: g.trace) := hb
+    have hold' : Older g.trace (Ev.res a va) (Ev.inv b) := by
+      rcases Older_cons.mp hold with ⟨he, _⟩ | h2
+      · cases he
+      · exact h2
+    rcases hlin with h | h
+    · rw [h] at hb' ⊢; exact hI.rt a b va hga hold' hb'
+    · rw [h] at hb' ⊢
+      by_cases hbl : b ∈ lin cfg g.trace
+      · exact Older_cons.mpr (Or.inr (hI.rt a b va hga hold' hbl))
+      · rcases List.mem_cons.mp hb' with rfl | h'
+        · refine Older_cons.mpr (Or.inl ⟨rfl, ?_⟩)
+          exact (mem_lin cfg a g.trace).mpr (Or.inr ⟨hga, va, Older_mem_left hold'⟩)
+        · exact absurd h' hbl
+  · intro u
+    by_cases hu : u = t
+    · subst hu
+      rw [upd_same]
+      refine ⟨?_, ?_, ?_, ?_, hT.held, hT.reader, ?_, ?_, ?_, ?_, ?_⟩
+      · intro h; cases h
+      · intro _; exact List.mem_cons_of_mem _ (hT.inv_ev (by rw [hst]; simp))
+      · intro w hw
+        rcases List.mem_cons.mp hw with h | h
+        · cases h; rfl
+        · exact absurd h (hnores w)
+      · intro hv
+        rcases List.mem_cons.mp hv with h | h
+        · cases h
+        · exact hT.rel_ev h
+      · intro _ h; rcases h with h | h <;> cases h
+      · intro _ _ h; rcases h with h | h <;> cases h
+      · intro hg hp; exact absurd hp (hval hg).1
+      · intro hg hp
+        have hp' : (ls u).ph = .post := hp
+        obtain ⟨newer0, older0, hd0, _⟩ := hT.seq_post hg hp'
+        rcases hlin with h | h
+        · exact ⟨newer0, older0, by show lin cfg (Ev.res u v :: g.trace) = _; rw [h]; exact hd0, fun h => by cases h⟩
+        · exact ⟨u :: newer0, older0, by show lin cfg (Ev.res u v :: g.trace) = _; rw [h, hd0]; rfl, fun h => by cases h⟩
+      · intro w hw hg newer older hd
+        have : w = v := by cases hw; rfl
+        rw [this]
+        exact (hval hg).2 newer older hd
+    · rw [upd_other _ _ hu]
+      refine TInv_frame (hI.thr u) (Or.inr ⟨_, rfl, fun h => hu h.symm⟩) Iff.rfl (fun _ => rfl) ?_ (fun _ => hcur)
+      rcases hlin with h | h
+      · exact Or.inl h
+      · exact Or.inr ⟨t, fun h => hu h.symm, h⟩
+
+theorem no_abort {cfg : Cfg} {m0 : Mem} (wf : WF cfg m0) {g : Sh} {ls : Tid → Loc} (hI : GInv cfg m0 g ls)
+    (t : Tid) (hst : (ls t).st = .run) :
+    act cfg.imm (cfg.prog t) g.mem (ls t).pc (ls t).regs ≠ .abort := by
+  intro ha
+  cases hg : cfg.isGrow t with
+  | true =>
+    have ga := good_act wf.shared ((hI.thr t).good hg (Or.inr hst)) g.mem
+    rw [ha] at ga; exact ga
+  | false =>
+    have ra := readOnly_act (imm := cfg.imm) (wf.reader t hg) g.mem (ls t).pc (ls t).regs
+    rw [ha] at ra; exact ra
+
+/-- every transition preserves the invariant -/
+theorem ginv_step {cfg : Cfg} {m0 : Mem} (wf : WF cfg m0) {g : Sh} {ls : Tid → Loc} (hI : GInv cfg m0 g ls)
+    (t : Tid) (g' : Sh) (l' : Loc) (hs : (g', l') ∈ tstep cfg t g (ls t)) : GInv cfg m0 g' (upd ls t l') := by
+  unfold tstep at hs
+  cases hst : (ls t).st with
+  | idle =>
+    simp only [hst, List.mem_singleton, Prod.mk.injEq] at hs
+    obtain ⟨rfl, rfl⟩ := hs
+    exact step_idle hI t hst
+  | run =>
+    simp only [hst] at hs
+    cases ha : act cfg.imm (cfg.prog t) g.mem (ls t).pc (ls t).regs with
+    | cont m pc ρ =>
+      simp only [ha, List.mem_singleton, Prod.mk.injEq] at hs
+      obtain ⟨rfl, rfl⟩ := hs
+      have h := step_cont wf hI t hst ha
+      simp only [hst] at h
+      exact h
+    | lock pc =>
+      simp only [ha] at hs
+      split at hs
+      · rename_i hfree
+        simp only [List.mem_singleton, Prod.mk.injEq] at hs
+        obtain ⟨rfl, rfl⟩ := hs
+        have h := step_lock wf hI t hst ha hfree
+        simp only [hst] at h
+        exact h
+      · simp at hs
+    | unlock pc =>
+      simp only [ha] at hs
+      split at hs
+      · rename_i hown
+        simp only [List.mem_singleton, Prod.mk.injEq] at hs
+        obtain ⟨rfl, rfl⟩ := hs
+        have h := step_unlock wf hI t hst ha hown
+        simp only [hst] at h
+        exact h
+      · simp at hs
+    | ret v =>
+      simp only [ha, List.mem_singleton, Prod.mk.injEq] at hs
+      obtain ⟨rfl, rfl⟩ := hs
+      exact step_ret wf hI t hst ha
+    | abort => exact absurd ha (no_abort wf hI t hst)
+    | stuck => simp [ha] at hs
+  | done v => simp [hst] at hs
+  | aborted => simp [hst] at hs
+
+/-- the invariant holds in every reachable state -/
+theorem ginv_reach {cfg : Cfg} {m0 : Mem} (wf : WF cfg m0) {s : Sh × (Tid → Loc)} (hr : Reachable cfg m0 s) :
+    GInv cfg m0 s.1 s.2 := by
+  induction hr with
+  | init => exact ginv_init wf
+  | step t g' l' _ hs ih => exact ginv_step wf ih t g' l' hs
+
 end W2c2Verif.Model.Grow
